@@ -149,10 +149,18 @@ Proof.
 Qed.
 
 (* ------------------------------------------------------------------ load balancing *)
+Section LB.
+Variable wo : wops.
+Notation min_idx_from := (min_idx_from wo).
+Notation min_bin := (min_bin wo).
+Notation balance := (balance wo).
+Notation load_balance := (load_balance wo).
+Notation weight_estimate := (weight_estimate wo).
+Notation weight_ok := (weight_ok wo).
 Lemma min_idx_from_lt l : forall i bi b, bi < i -> min_idx_from i bi b l < i + List.length l.
 Proof.
   induction l as [|x r IH]; intros i bi b H; cbn; [lia|].
-  destruct (of_lt x b).
+  destruct (w_lt wo x b).
   - specialize (IH (S i) i x). lia.
   - specialize (IH (S i) bi b). lia.
 Qed.
@@ -177,8 +185,8 @@ Qed.
 Lemma balance_total qs : forall totals bins, crashes (balance qs totals bins) = false.
 Proof.
   induction qs as [|q r IH]; intros totals bins; cbn; [reflexivity|].
-  unfold weight_estimate. destruct (jget q "query_weight_estimate"); cbn.
-  - destruct (as_f64 j); cbn; [|reflexivity]. destruct (min_bin totals); [apply IH|reflexivity].
+  unfold PL.weight_estimate. destruct (jget q "query_weight_estimate"); cbn.
+  - destruct (w_of_json wo j); cbn; [|reflexivity]. destruct (min_bin totals); [apply IH|reflexivity].
   - destruct (min_bin totals); [apply IH|reflexivity].
 Qed.
 Lemma load_balance_total qs par : crashes (load_balance qs par) = false.
@@ -193,10 +201,10 @@ Proof.
   induction qs as [|q r IH]; intros totals bins Hw Hlen Hne.
   - exists bins. cbn. rewrite app_nil_r. auto.
   - inversion Hw as [|? ? Hq Hr]; subst. cbn [balance].
-    unfold weight_ok in Hq. destruct (weight_estimate q) as [w| | |] eqn:Ew; try discriminate.
+    unfold PL.weight_ok in Hq. destruct (weight_estimate q) as [w| | |] eqn:Ew; try discriminate.
     destruct (min_bin_some totals) as [i Hi]; [destruct totals, bins; cbn in *; congruence|].
     rewrite Hi. pose proof (min_bin_lt _ _ Hi) as Hlt.
-    edestruct (IH (upd i (fun t => PrimFloat.add t match w with Some f => f | None => PrimFloat.one end) totals)
+    edestruct (IH (upd i (fun t => w_add wo t match w with Some f => f | None => w_one wo end) totals)
                  (upd i (fun b => b ++ [q]) bins)) as [bins' [Hb [Hp Hl]]]; [exact Hr| | |].
     + rewrite !upd_length. exact Hlen.
     + intros E. apply (f_equal (@List.length _)) in E. rewrite upd_length in E. destruct bins; cbn in *; congruence.
@@ -210,7 +218,7 @@ Proof.
   intros Hp Hw. destruct qs as [|q r].
   - exists []. cbn. repeat split; auto.
   - cbn [load_balance].
-    destruct (balance_ok (q :: r) (repeat PrimFloat.zero par) (repeat [] par) Hw) as [bins [Hb [Hperm Hl]]].
+    destruct (balance_ok (q :: r) (repeat (w_zero wo) par) (repeat [] par) Hw) as [bins [Hb [Hperm Hl]]].
     + rewrite !repeat_length. reflexivity.
     + destruct par; [lia|]. cbn. congruence.
     + exists bins. split; [exact Hb|]. split.
@@ -219,8 +227,11 @@ Proof.
       * split; [congruence|]. intros ->. rewrite repeat_length in Hl. cbn in Hl. lia.
 Qed.
 
+End LB.
+
 (* ------------------------------------------------------------------ the run *)
 Section RunProofs.
+  Variable wo : wops.
   Variable R : Type.
   Variable plugins : list plugin.
   Variable search : json -> res R.
@@ -234,7 +245,7 @@ Section RunProofs.
   Hypothesis Hoplugins : forall op, In op oplugins -> forall r out, crashes (op r out) = false.
   Hypothesis Hsink : forall j, crashes (sink j) = false.
 
-  Notation run := (run R plugins search oplugins sink par_app par_run persist).
+  Notation run := (run wo R plugins search oplugins sink par_app par_run persist).
   Notation input_stage := (input_stage plugins).
   Notation run_single_query := (run_single_query R search oplugins).
 
@@ -288,7 +299,7 @@ Section RunProofs.
     apply par_join_total. intros r Hr. apply in_map_iff in Hr. destruct Hr as [c [<- _]].
     destruct persist; [apply run_bin_total|apply run_bin_discard_total].
   Qed.
-  Lemma run_user_total user : crashes (run_user R plugins search oplugins sink par_app par_run persist user) = false.
+  Lemma run_user_total user : crashes (run_user wo R plugins search oplugins sink par_app par_run persist user) = false.
   Proof.
     unfold run_user. apply crashes_bind.
     - unfold get_queries. destruct user; try reflexivity. destruct (oget m "queries") as [[]|]; reflexivity.
